@@ -284,7 +284,10 @@ def check(item, tier):
                     mdp2 = build.SpecMDP(spec2, slabel, alabel, explicit)
                     try:
                         if mdp2.transition_matrix.shape == mdp.transition_matrix.shape:
-                            b = PolicyIteration(max_iterations=500, undefined_value=undef).batch_plan_on([mdp2, mdp, mdp2])
+                            # a batch mixes problems that stabilise at different sweeps: a zero-reward copy (stable at once) first
+                            zero_T = tuple(tuple((a, d, F(0)) for a, d, rw in row) for row in spec_item[2])
+                            mdp0 = build.SpecMDP(Spec(spec_item[:2] + (zero_T,) + spec_item[3:]), slabel, alabel, explicit)
+                            b = PolicyIteration(max_iterations=500, undefined_value=undef).batch_plan_on([mdp0, mdp2, mdp, mdp2])[1:]
                             r.count('transitions')
                             single2 = PolicyIteration(max_iterations=500, undefined_value=undef).plan_on(mdp2)
                             for got, want, nm in ((b[1], res, 'b1'), (b[0], single2, 'b0'), (b[2], single2, 'b2')):
